@@ -116,6 +116,36 @@ Theorem C08_group_comma_eq_repeat_long : forall t, wf_table t -> forall i o a b,
 Proof. exact group_comma_eq_repeat_long. Qed.
 Print Assumptions C08_group_comma_eq_repeat_long.
 
+(* a flag registered with AddFlagVarNoAll (pkglint: -Werror) is left alone by "all" and "none" ... *)
+Theorem C08_exempt_flag_unaffected : forall fl bs v j f,
+  nth_error fl j = Some f -> gf_all f = false -> nth_error (set_all fl bs v) j = nth_error bs j.
+Proof. exact set_all_exempt. Qed.
+Print Assumptions C08_exempt_flag_unaffected.
+
+(* ... in any position: -Wx -Wall is -Wall -Wx (and likewise with none) for a known flag
+   word x ("error" or "no-error") that addresses only exempt flags; with
+   C08_group_comma_eq_repeat the same holds for -Wx,all / -Wall,x.
+   [97;108;108] = "all", [110;111;110;101] = "none", [110;111;45] = "no-" *)
+Theorem C08_exempt_flag_order : forall t, wf_table t -> forall i o x a,
+  nth_error t i = Some o -> o_kind o = KGroup ->
+  (a = [97; 108; 108] \/ a = [110; 111; 110; 101]) ->
+  str_eqb x [110; 111; 110; 101] || str_eqb x [97; 108; 108] = false -> x <> [] ->
+  existsb (N.eqb 44) x = false ->
+  (forall f, In f (o_flags o) -> (x = gf_name f \/ x = [110; 111; 45] ++ gf_name f) -> gf_all f = false) ->
+  forall st rem post bs bs1, nth_error st i = Some (VGroup bs) -> find_flag (o_flags o) bs x = Some bs1 ->
+    parse_args t st rem ((45 :: o_short o :: x) :: (45 :: o_short o :: a) :: post) =
+    parse_args t st rem ((45 :: o_short o :: a) :: (45 :: o_short o :: x) :: post).
+Proof. exact exempt_flag_order. Qed.
+Print Assumptions C08_exempt_flag_order.
+
+(* on pkglint's own table: `-Werror -Wall` = `-Wall -Werror`, and error stays on *)
+Example C08_werror_wall_order :
+  parse option_table [[112]; [45; 87; 101; 114; 114; 111; 114]; [45; 87; 97; 108; 108]] =
+  parse option_table [[112]; [45; 87; 97; 108; 108]; [45; 87; 101; 114; 114; 111; 114]] /\
+  (exists st rem, parse option_table [[112]; [45; 87; 101; 114; 114; 111; 114]; [45; 87; 97; 108; 108]] = ROk st rem /\
+     last st (VBool false) = VGroup [true; true; true; true]).
+Proof. exact werror_wall_order. Qed.
+
 (* everything after "--" is an argument, the settings are left alone *)
 Theorem C08_after_dashdash_are_args : forall t st rem post,
   parse_args t st rem ([45; 45] :: post) = ROk st (rem ++ post).
